@@ -22,6 +22,8 @@ func init() {
 }
 
 func runC18(c *eng.Ctx) {
+	c.Rule("R18.4", "K4")
+	ruleActivityEventsArePublishedWithAFreshRequest(c)
 	c.Rule("R18.3", "K2")
 	ruleInternalPublishResumesThePartition(c)
 	// (R14.6, shared) "the entry was compacted away" is recognised by identity: the store's error arrives unwrapped
